@@ -17,7 +17,8 @@ import (
 )
 
 type verifRollWorld struct {
-	replicas   int // 0 = all names
+	nested     bool // revisioned value lives at spec.template.v, revision history = [spec.template]
+	replicas   int  // 0 = all names
 	gensel     bool
 	w          *env.World
 	pc         *verifPC
@@ -35,6 +36,9 @@ type verifRollWorld struct {
 func verifRollHook(r *verifRollWorld) *verifHook {
 	return &verifHook{enabled: true, fn: func(req *v1.CompositeHookRequest) (*v1.CompositeHookResponse, error) {
 		x, _, _ := unstructured.NestedString(req.Parent.Object, "spec", "x")
+		if r.nested {
+			x, _, _ = unstructured.NestedString(req.Parent.Object, "spec", "template", "v")
+		}
 		// spec.n (when present) is the replica count: the first n names are desired
 		want := r.names
 		if n, found, _ := unstructured.NestedInt64(req.Parent.Object, "spec", "n"); found && int(n) < len(want) {
@@ -76,10 +80,20 @@ func verifNewRollWorld(namespaced bool, method string, names []string, x string)
 	return verifNewRollWorldSel(namespaced, false, method, names, x)
 }
 
+// verifNewRollWorldNested: nested puts the revisioned value at spec.template.v
+// with revisionHistory.fieldPaths = [spec.template].
+func verifNewRollWorldNested(namespaced, nested bool, method string, names []string, x string) *verifRollWorld {
+	return verifNewRollWorldOpts(namespaced, false, nested, method, names, x)
+}
+
 // verifNewRollWorldSel: gensel chooses between generateSelector and an explicit
 // .spec.selector (matchLabels app=x, set by the hook on every child).
 func verifNewRollWorldSel(namespaced, gensel bool, method string, names []string, x string) *verifRollWorld {
-	r := &verifRollWorld{w: env.NewWorld(), namespaced: namespaced, names: names, method: method, gensel: gensel}
+	return verifNewRollWorldOpts(namespaced, gensel, false, method, names, x)
+}
+
+func verifNewRollWorldOpts(namespaced, gensel, nested bool, method string, names []string, x string) *verifRollWorld {
+	r := &verifRollWorld{w: env.NewWorld(), namespaced: namespaced, names: names, method: method, gensel: gensel, nested: nested}
 	var parent *unstructured.Unstructured
 	if namespaced {
 		r.parentRes, r.childRes, r.ns = env.ThingRes, env.ConfigMapRes, "ns"
@@ -96,21 +110,34 @@ func verifNewRollWorldSel(namespaced, gensel bool, method string, names []string
 
 func (r *verifRollWorld) spec(x string) map[string]interface{} {
 	sp := map[string]interface{}{"x": x}
+	tmpl := map[string]interface{}{}
+	if r.nested {
+		sp["x"] = "not-revisioned"
+		tmpl["v"] = x
+	}
 	if r.replicas > 0 {
 		sp["n"] = int64(r.replicas)
 	}
 	if !r.gensel {
 		sp["selector"] = map[string]interface{}{"matchLabels": map[string]interface{}{"app": "x"}}
 		// labels for orphaned-revision lookup (see newControllerRevision)
-		sp["template"] = map[string]interface{}{"metadata": map[string]interface{}{"labels": map[string]interface{}{"app": "x"}}}
+		tmpl["metadata"] = map[string]interface{}{"labels": map[string]interface{}{"app": "x"}}
+	}
+	if len(tmpl) > 0 {
+		sp["template"] = tmpl
 	}
 	return sp
 }
 
 // newPC builds a fresh controller (process state) over the same store.
 func (r *verifRollWorld) newPC() {
+	var fieldPaths []string
+	if r.nested {
+		fieldPaths = []string{"spec.template"}
+	}
 	r.pc = verifNewPC(r.w, verifPCConfig{
-		ParentRes: r.parentRes, GenerateSelector: r.gensel,
+		FieldPaths: fieldPaths,
+		ParentRes:  r.parentRes, GenerateSelector: r.gensel,
 		Children: []verifChildRule{{Res: r.childRes, Strategy: verifStrategyOf(r.method)}},
 		Sync:     verifRollHook(r),
 	})
